@@ -189,6 +189,9 @@ func (x *Exec) bigMethod(e *Env, callee *types.Func, recv ast.Expr, n *ast.CallE
 			t = Store(t, Add(s.Off, IntC(i)), elemCoerce(Scalar{d, byteT}, arr.T.S.Elem).T)
 		}
 		x.setMem(e.st, s.Alloc, s.path, ArrayV{T: t, N: arr.N, Elem: arr.Elem, Typ: arr.Typ})
+		// the bytes written are the big-endian representation of z (part of the trusted model:
+		// the digit expansion above sums back to z, which the solvers do not see by themselves)
+		e.st.assume(Eq(x.beValue(e, s), zv))
 		return s, true
 	case "ModInverse":
 		_, g := arg(0)
